@@ -1,4 +1,5 @@
 (* Props/C13.v — Dictionary form is a faithful, independent copy. *)
+From NIR Require Import Model.Alias Proofs.AliasProofs.
 From NIR Require Import Model.Serial Proofs.SerialProofs Proofs.MirrorClosedProofs Proofs.DictProofs.
 
 (* `built n`: n was produced by the constructors (leaf: construct k args = Ok n; graph: mk_graph over built
@@ -41,9 +42,51 @@ Theorem c13_fields_in_dict : forall k fs tin tout f v,
   In (f, v) fs -> In (f, v) (to_dict (Leaf k fs tin tout)).
 Proof. exact to_dict_leaf_field. Qed.
 
-(* INDEPENDENCE: in the model values are immutable and `to_dict` returns a value, so "shares no mutable state"
-   cannot be expressed as a theorem here; it is established on the code by the alias matrix and the
-   mutate-and-compare oracle of the harness (DESIGN.md 11.2). *)
+(* INDEPENDENCE.  Values of the main model are immutable, so "shares no mutable state" is stated on the object-identity
+   model (Model/Alias.v): every mutable object (array object, array memory, list, dict, node) carries its identity,
+   `to_dict g n` is dataclasses.asdict + the class-specific entries with `n` the allocator of fresh identities,
+   `update p new o` is an in-place change of the object (for arrays: of the memory) with identity p, seen wherever
+   it is referenced.  `below g n`: the graph was allocated before the call. *)
+
+(* every identity in the dictionary is newly allocated, and no two positions of the dictionary share an object or memory *)
+Theorem c13_dict_is_fresh : forall g n d n',
+  Alias.to_dict g n = (d, n') -> n <= n' /\ fresh_in d n n' /\ NoDup (ids d).
+Proof. exact to_dict_fresh. Qed.
+
+Theorem c13_shares_nothing : forall g n d n',
+  below g n -> Alias.to_dict g n = (d, n') -> forall i, In i (ids g) -> ~ In i (ids d).
+Proof. exact to_dict_disjoint. Qed.
+
+(* "changing either afterwards never changes the other", for every in-place change of every object of either side *)
+Theorem c13_dict_unaffected_by_graph_mutation : forall g n d n' p new,
+  below g n -> Alias.to_dict g n = (d, n') -> In p (ids g) -> update p new d = d.
+Proof. exact dict_unaffected_by_graph_mutation. Qed.
+
+Theorem c13_graph_unaffected_by_dict_mutation : forall g n d n' p new,
+  below g n -> Alias.to_dict g n = (d, n') -> In p (ids d) -> update p new g = g.
+Proof. exact graph_unaffected_by_dict_mutation. Qed.
+
+(* two dictionaries taken from one graph are independent of each other as well *)
+Theorem c13_two_dicts_independent : forall g n d1 n1 d2 n2,
+  Alias.to_dict g n = (d1, n1) -> Alias.to_dict g n1 = (d2, n2) ->
+  (forall p new, In p (ids d1) -> update p new d2 = d2) /\
+  (forall p new, In p (ids d2) -> update p new d1 = d1).
+Proof. exact two_dicts_independent. Qed.
+
+(* the copy keeps the content of every array (tokens, in order) *)
+Theorem c13_copy_keeps_content : forall o n, toks (fst (asdict_inner o n)) = toks o.
+Proof. exact asdict_toks. Qed.
+
+(* the hypothesis `below g n` is the one the correspondence runs with (n = max_id g + 1), and the sorted walk the
+   correspondence compares is a permutation of `ids` *)
+Theorem c13_allocator_above_graph : forall g, below g (max_id g + 1).
+Proof. exact max_id_below. Qed.
+Theorem c13_walk_is_ids : forall o, Permutation.Permutation (ids_sorted o) (ids o).
+Proof. exact ids_sorted_perm. Qed.
+
+(* non-vacuity: a graph WITH internal sharing (one array under two fields, a view of its memory, a list in metadata) *)
+Example c13_alias_example : below ex_g 100 /\ (forall i, In i (ids ex_g) -> ~ In i (ids (fst (Alias.to_dict ex_g 100)))).
+Proof. split; [exact ex_g_below | exact ex_disjoint]. Qed.
 
 Print Assumptions c13_round_trip.
 Print Assumptions c13_round_trip_eq.
@@ -52,3 +95,11 @@ Print Assumptions c13_round_trip_twice.
 Print Assumptions c13_keys.
 Print Assumptions c13_fields_are_documented.
 Print Assumptions c13_fields_in_dict.
+Print Assumptions c13_dict_is_fresh.
+Print Assumptions c13_shares_nothing.
+Print Assumptions c13_dict_unaffected_by_graph_mutation.
+Print Assumptions c13_graph_unaffected_by_dict_mutation.
+Print Assumptions c13_two_dicts_independent.
+Print Assumptions c13_copy_keeps_content.
+Print Assumptions c13_allocator_above_graph.
+Print Assumptions c13_walk_is_ids.
